@@ -57,6 +57,7 @@ class BoundedResult:
     error: str | None = None
     assumptions: list = field(default_factory=list)
     kind: str = "B-enum"
+    function: str | None = None  # contract boxes: the real function the contract is evaluated on
 
 
 def _verify_worker(job):
@@ -258,6 +259,8 @@ class CheckRun:
             d = {"name": b.name, "kind": b.kind, "scope": b.scope, "cases": b.cases, "distinct_nontrivial": b.distinct,
                  "exhaustive": b.exhaustive, "violations": len(b.violations), "known_findings": [k["id"] for k in b.known_hits],
                  "monitors": b.monitors, "wall_s": b.wall_s, "label": "bounded (never counted as proved)"}
+            if b.function:
+                d["function"] = b.function
             if b.error:
                 d["error"] = b.error
                 self.failures.append(f"bounded {b.name}: {b.error[:400]}")
